@@ -90,6 +90,13 @@ var propSpecs = map[string]*PropSpec{
 		TrustedBase: []string{"responses are written through util.WriteJSON (other writers of response bodies are not scanned)", "secrets echoed in error messages or served by the log endpoint are not covered", "OAuth client registrations and signing keys are not serialised through a type with a secret-named field on any WriteJSON path found; their endpoints are otherwise not covered"},
 		Extra:       c44Extra,
 	},
+	"C36": {
+		Patterns:    []string{"./..."},
+		Level:       "proof",
+		Explanation: "rewriteFile is verified against a ghost file system of the three names a rewrite touches (the message file, this run's temporary file, the backup name): each operating-system call updates the ghost contents by its trusted meaning (os.Rename atomic), and after every call that changes the file system the crash invariant 'the path holds the complete original or the complete new content' is asserted, which is the crash-point quantifier of the statement; calls that are not atomic (write, create, truncating open) are asserted never to be aimed at the path; on success the path holds the new content and this run leaves no file of its own behind, on failure the original; lintFile is asserted to clear an interrupted run's leftovers on every successful writing run, and removeLeftovers to remove only names with the langlint prefix; a table obligation keeps every file-system-changing call of the package inside these functions",
+		TrustedBase: []string{"os.Rename replaces the destination atomically (rename(2)); a crash during any other call does not touch a file the call is not aimed at", "os.CreateTemp returns a fresh name different from the path and the backup name", "a complete Write to a freshly created file gives it exactly the new content", "os.ReadDir lists the directory (removeLeftovers removes every name it lists with the prefix)", "durability (fsync) is not part of the statement and not modelled"},
+		Extra:       c36Extra,
+	},
 	"C27": {
 		Patterns: []string{"./..."},
 		Level:    "proof",
